@@ -3,7 +3,8 @@ CONSTANTS
     MaxN = 5
     Faults = FALSE
     NthOrder = "advance_then_drop"
-INVARIANTS IndexOK NoDoubleDrop NoStaleAccess WindowLive NoLeak
+    CloneOwner = "iterator_first"
+INVARIANTS IndexOK NoDoubleDrop NoStaleAccess NoCloneLeak WindowLive NoLeak
 ACTION_CONSTRAINT Emit
 VIEW View
 CHECK_DEADLOCK FALSE
